@@ -6,7 +6,10 @@ import BipVerif.Lemmas.Base58
 import BipVerif.Lemmas.ConvertBits
 import BipVerif.Lemmas.IntBytes
 import BipVerif.Lemmas.Base58Check
+import BipVerif.Lemmas.Base58Xmr
+import BipVerif.Lemmas.SS58
 import BipVerif.Lemmas.Scale
+import BipVerif.Lemmas.Base32
 
 namespace BipVerif.Props.C11
 open BipVerif BipVerif.Model
@@ -51,6 +54,22 @@ theorem base58check_decode_encode (H : Bytes → Bytes) (hH : ∀ x, 4 ≤ (H x)
     b58CheckDecode H btcAlphabet (b58CheckEncode H btcAlphabet data) = .ok data :=
   b58Check_decode_encode H hH btcAlphabet btcAlphabet_nodup btcAlphabet_length data
 
+/-- Monero block Base58, every length (all last-block sizes). -/
+theorem xmr_base58_decode_encode (b : Bytes) : xmrDecode (xmrEncode b) = .ok b := xmr_decode_encode b
+
+/-- Base32 with padding, without padding, and with any duplicate-free 32-symbol custom alphabet
+that does not contain the padding character. -/
+theorem base32_roundtrip (b : Bytes) : base32Decode (base32Encode b none) none = .ok b :=
+  base32_decode_encode b
+theorem base32_nopad_roundtrip (b : Bytes) : base32Decode (base32EncodeNoPad b none) none = .ok b :=
+  base32_decode_encodeNoPad b
+theorem base32_custom_roundtrip (b : Bytes) (a : List Char) (ha : Base32AlphabetOk a) :
+    base32Decode (base32Encode b (some a)) (some a) = .ok b :=
+  base32_decode_encode_custom b a ha
+theorem base32_custom_nopad_roundtrip (b : Bytes) (a : List Char) (ha : Base32AlphabetOk a) :
+    base32Decode (base32EncodeNoPad b (some a)) (some a) = .ok b :=
+  base32_decode_encodeNoPad_custom b a ha
+
 /-- hex and the integer/byte helpers -/
 theorem hex_roundtrip (b : Bytes) : Bytes.ofHex (Bytes.toHex b) = some b := ofHex_toHex b
 theorem toBytes_fromBytes_be (b : Bytes) : toBytesBE (Bytes.toNatBE b) b.length = .ok b := toBytesBE_of_toNatBE b
@@ -59,6 +78,12 @@ theorem fromBytes_toBytes_be {v n : Nat} {b : Bytes} (h : toBytesBE v n = .ok b)
   toBytesBE_toNatBE h
 theorem toBytes_overflow_iff (v n : Nat) : toBytesBE v n = .error .overflow ↔ 256 ^ n ≤ v := toBytesBE_error_iff v n
 theorem binStr_roundtrip (v pad : Nat) : ofBinStr (toBinStr v pad) = v := ofBinStr_toBinStr v pad
+
+/-- SS58: every format 0..16383 except the reserved 46/47, every 32-byte payload. -/
+theorem ss58_roundtrip (H : Bytes → Bytes) (hH : ∀ x, 2 ≤ (H x).length) (data : Bytes) (fmt : Nat)
+    (hd : data.length = 32) (hf : fmt ≤ 16383) (h46 : fmt ≠ 46) (h47 : fmt ≠ 47) :
+    (ss58Encode H data fmt >>= ss58Decode H) = .ok (fmt, data) :=
+  ss58_decode_encode H hH data fmt hd hf h46 h47
 
 /-- SCALE compact integers against the specification decoder, whole range `[0, 2^536)`. -/
 theorem scale_compact_roundtrip {v : Nat} (h : v < 2 ^ 536) :
